@@ -78,7 +78,27 @@ def setup():
     return sany_all()
 
 
-ACTION_RE = re.compile(r"^<(\w+) line \d+, col \d+ to line \d+, col \d+ of module (\w+)>: (\d+):(\d+)")
+ACTION_RE = re.compile(r"^<(\w+) line \d+, col \d+ to line \d+, col \d+ of module (\w+)(?: \((\d+) \d+ \d+ \d+\))?>: (\d+):(\d+)")
+_DEF_RE = re.compile(r"^(\w+)(\(.*?\))?\s*==")
+_src_cache = {}
+
+
+def _def_at(module, line_no):
+    """Name of the definition that starts at (or most closely before) a line of a module - TLC names an action that
+    is an instance of a wrapper operator by the wrapper plus the location of the call site."""
+    if module not in _src_cache:
+        try:
+            _src_cache[module] = open(os.path.join(SPEC, module + ".tla")).read().split("\n")
+        except OSError:
+            _src_cache[module] = []
+    lines = _src_cache[module]
+    i = min(line_no, len(lines)) - 1
+    while i >= 0:
+        m = _DEF_RE.match(lines[i])
+        if m:
+            return m.group(1)
+        i -= 1
+    return None
 STATES_RE = re.compile(r"^(\d+) states generated, (\d+) distinct states found")
 SIM_RE = re.compile(r"The number of states generated: (\d+)")
 
@@ -98,7 +118,10 @@ def parse_tlc_log(path):
                 continue
             m = ACTION_RE.match(line)
             if m:
-                res["actions"][m.group(1)] = [int(m.group(3)), int(m.group(4))]
+                name = m.group(1)
+                if m.group(3):
+                    name = _def_at(m.group(2), int(m.group(3))) or name
+                res["actions"][name] = [int(m.group(4)), int(m.group(5))]
                 continue
             if line.startswith("Error:") or "is violated" in line or "Exception" in line:
                 res["errors"].append(line.strip())
@@ -271,6 +294,11 @@ class Ctx:
                    "VERIF_SEED": str(self.seed)})
         with open(outp, "w") as out:
             p = subprocess.run([VH, "record", family] + list(args), cwd=self.work, env=e2, stdout=out, timeout=timeout)
+        if p.returncode < 0 or p.returncode in (101, 134):
+            # the recorder runs the code under test in-process: dying from a signal / panic / abort is an observation
+            self.add_failure({"family": "trace", "case": {"record": family, "args": list(args), "seed": self.seed, "tier": self.tier},
+                              "detail": {"kind": "crash", "what": "recorder %s died (rc %s) while driving the real code" % (family, p.returncode)}})
+            return None
         if p.returncode != 0:
             raise ToolError("vh record %s failed (rc %s)" % (family, p.returncode))
         return outp
@@ -306,6 +334,43 @@ class Ctx:
         self.runs.append({"label": label, "cmd": res["cmd"], "mode": "trace-validation", "trace_events": nlines,
                           "distinct_states": res["distinct"], "accepted": accepted, "wall_s": res["wall_s"]})
         return accepted, msg, res
+
+    def record_and_validate(self, family, model, args=(), label=None, cfg=None, count_key=None, timeout=3600):
+        """Records real executions with `vh record <family>` and validates the trace with spec/<model>.tla.
+        A rejected trace becomes a failure carrying the first unexplained event."""
+        label = label or model
+        trace = self.vh_record(family, label + ".ndjson", list(args), timeout=timeout)
+        if trace is None:
+            return False
+        nlines = sum(1 for _ in open(trace))
+        if nlines == 0:
+            raise ToolError("empty trace recorded for %s" % label)
+        ok, msg, res = self.trace_check(model, trace, cfg=cfg, label=label, timeout=timeout)
+        if ok:
+            if not any("ACCEPTED" in p for p in res["prints"]):
+                raise ToolError("trace %s: TLC finished without evaluating the acceptance condition" % label)
+            self.traces_ok += nlines
+            self.evaluations += nlines
+            self.distinct_nt_extra += distinct_lines(trace)
+            with open(trace) as f:
+                first = f.readline()
+                second = f.readline()
+            self.samples.append({"run": label, "events": [json.loads(x) for x in (first, second) if x.strip()]})
+        else:
+            m = re.search(r'"REJECTED", (\d+)', msg)
+            at = int(m.group(1)) if m else None
+            ev = None
+            if at:
+                with open(trace) as f:
+                    for i, line in enumerate(f, start=1):
+                        if i == at:
+                            ev = line.strip()[:4000]
+                            break
+            self.evaluations += nlines
+            self.add_failure({"family": "trace", "case": {"record": family, "args": list(args), "model": model,
+                                                          "seed": self.seed, "tier": self.tier, "event_index": at},
+                              "detail": {"kind": "trace-rejected", "what": model, "event": ev, "tlc": msg[:1500]}})
+        return ok
 
     # ------------------------------------------------------------------ results
     def replay_path(self, f, n):
@@ -397,12 +462,27 @@ class Ctx:
         case = f.get("case")
         if not fam or case is None:
             raise ToolError("replay file has no family/case")
+        if fam == "trace":
+            # a rejected trace is reproduced by recording again with the same seed and tier
+            self.seed = int(case.get("seed", self.seed))
+            self.tier = case.get("tier", self.tier)
+            self.quick = self.tier == "quick"
+            self.mod.run(self)
+            return self.finish()
         tmp = os.path.join(self.work, "replay.ndjson")
         with open(tmp, "w") as out:
             out.write(json.dumps(case) + "\n")
         extra = getattr(self.mod, "replay_env", lambda f: {})(f)
         self.vh_replay_file(fam, tmp, "replay", extra_env=extra)
         return self.finish()
+
+
+def distinct_lines(path):
+    seen = set()
+    with open(path, "rb") as f:
+        for line in f:
+            seen.add(hashlib.blake2b(line, digest_size=8).digest())
+    return len(seen)
 
 
 def default_signature(f):
